@@ -92,7 +92,12 @@ let run_read (lines : string list) : unit =
          (match op with
           | "info" :: _ ->
             (match info ds fsrc with
-             | Ok sm -> print_endline "info ok"; print_info sm
+             | Ok sm -> print_endline "info ok"; print_info sm;
+               let topics = match sm.sm_stats with
+                 | None -> []
+                 | Some st -> List.filter_map (fun (ch, _) -> match tab_get ch sm.sm_channels with
+                     | Some c -> Some (hx c.c_topic) | None -> None) st.st_counts in
+               Printf.printf "channelcounts %s\n" (String.concat "," (List.sort_uniq compare topics))
              | Err e -> Printf.printf "info err:%s\n" (err_name e)
              | o -> print_endline (crash_string o))
           | "getatt" :: off :: _ ->
